@@ -1,7 +1,7 @@
 (* Simulation lemmas for the MYSQL layer: if the engine catalog is the believed one (Sim s c), executing the
    statements generated for one action leaves the believed catalog of the schema after the action — per action
    kind, under the decidable side conditions whose negations are the known-finding classes of Model/Known.v. *)
-From VV.MYSQL Require Import Spec.
+From VV.MYSQL Require Import Spec ModifyP.
 From Coq Require Import Lia.
 
 (* ---------- catalog_of commutes with the list operations apply_action uses ---------- *)
@@ -71,4 +71,317 @@ Proof.
   destruct (has_table_find t s Ht) as [td Ftd].
   unfold run. cbn [run_from exec]. unfold with_tb. rewrite find_tb_catalog_of, Ftd. cbn [option_map].
   rewrite (no_inbound_from_others s t Href). rewrite filter_catalog_of. reflexivity.
+Qed.
+
+Lemma schema_at_S_cons : forall s a r i, schema_at s (a :: r) (S i) = schema_at (step s a) r i.
+Proof. reflexivity. Qed.
+
+(* ---------- running statement lists ---------- *)
+Lemma run_from_ok_shift : forall l i j c c', run_from i c l = RunOk c' -> run_from j c l = RunOk c'.
+Proof.
+  induction l as [|x r IH]; intros i j c c' H; cbn [run_from] in *; [exact H|].
+  destruct (exec c x) as [c1|e]; [|discriminate]. eapply IH. exact H.
+Qed.
+
+Lemma run_from_app_ok : forall l1 i j l2 c c1 c2,
+  run_from i c l1 = RunOk c1 -> run_from j c1 l2 = RunOk c2 -> run_from i c (l1 ++ l2) = RunOk c2.
+Proof.
+  induction l1 as [|x r IH]; intros i j l2 c c1 c2 H1 H2; cbn [run_from app] in *.
+  - inversion H1; subst. eapply run_from_ok_shift. exact H2.
+  - destruct (exec c x) as [c'|e]; [|discriminate]. eapply IH; eassumption.
+Qed.
+Lemma run_app_ok : forall l1 l2 c c1 c2,
+  run c l1 = RunOk c1 -> run c1 l2 = RunOk c2 -> run c (l1 ++ l2) = RunOk c2.
+Proof. unfold run. intros. eapply run_from_app_ok; eassumption. Qed.
+
+(* ---------- Sim_plan: the invariant carried through build_plan_queries' loop ---------- *)
+Theorem Sim_plan : forall acts s s',
+  (forall i a, nth_error acts i = Some a -> action_sim (schema_at s acts i) a) ->
+  apply_all s acts = Ok s' ->
+  exists L, gen_plan s acts = Ok L /\ run (catalog_of s) (List.concat L) = RunOk (catalog_of s').
+Proof.
+  induction acts as [|a r IH]; intros s s' Hall Happ.
+  - cbn in Happ. inversion Happ; subst. exists []. split; reflexivity.
+  - cbn [apply_all] in Happ. destruct (apply_action s a) as [s1|e] eqn:A; [|discriminate].
+    destruct (Hall 0%nat a eq_refl s1 A (pending_constraints a r)) as [st [G R]].
+    assert (St : step s a = s1) by (unfold step; rewrite A; reflexivity).
+    destruct (IH s1 s') as [L [GP RP]].
+    + intros i b Hn. specialize (Hall (S i) b Hn). rewrite schema_at_S_cons in Hall. rewrite St in Hall. exact Hall.
+    + exact Happ.
+    + exists (st :: L). split.
+      * cbn [gen_plan]. unfold schema_at in G. cbn [firstn fold_left] in G. rewrite G. rewrite A. rewrite GP. reflexivity.
+      * cbn [List.concat]. eapply run_app_ok; [exact R|exact RP].
+Qed.
+
+Lemma apply_all_app : forall l1 l2 s s',
+  apply_all s (l1 ++ l2) = Ok s' -> exists s1, apply_all s l1 = Ok s1 /\ apply_all s1 l2 = Ok s'.
+Proof.
+  induction l1 as [|a r IH]; intros l2 s s' H; cbn [app apply_all] in *.
+  - exists s. split; [reflexivity|exact H].
+  - destruct (apply_action s a) as [s1|e]; [|discriminate]. apply IH. exact H.
+Qed.
+
+Lemma apply_all_fold_step : forall acts s s', apply_all s acts = Ok s' -> fold_left step acts s = s'.
+Proof.
+  induction acts as [|a r IH]; intros s s' H; cbn [apply_all fold_left] in *.
+  - inversion H. reflexivity.
+  - destruct (apply_action s a) as [s1|e] eqn:A; [|discriminate].
+    unfold step at 2. rewrite A. apply IH. exact H.
+Qed.
+
+(* ---------- Sim_history: migration after migration ---------- *)
+Theorem Sim_history : forall plans s s',
+  (forall k p sb, nth_error plans k = Some p ->
+                  apply_all s (flat_map p_actions (firstn k plans)) = Ok sb ->
+                  forall i a, nth_error (p_actions p) i = Some a -> action_sim (schema_at sb (p_actions p) i) a) ->
+  apply_all s (flat_map p_actions plans) = Ok s' ->
+  run_history (catalog_of s) s plans = Some (catalog_of s').
+Proof.
+  induction plans as [|p r IH]; intros s s' Hall Happ.
+  - cbn in Happ. inversion Happ; subst. reflexivity.
+  - cbn [flat_map] in Happ. destruct (apply_all_app _ _ _ _ Happ) as [s1 [A1 A2]].
+    destruct (Sim_plan (p_actions p) s s1 (Hall 0%nat p s eq_refl eq_refl) A1) as [L [GP RP]].
+    cbn [run_history]. rewrite GP, RP. rewrite (apply_all_fold_step _ _ _ A1).
+    apply IH; [|exact A2].
+    intros k q sb Hn Hsb. apply (Hall (S k) q sb Hn).
+    cbn [firstn flat_map]. clear -A1 Hsb.
+    revert s A1. generalize (p_actions p) as l. induction l as [|a l IHl]; intros s A1; cbn [app apply_all] in *.
+    + inversion A1; subst. exact Hsb.
+    + destruct (apply_action s a) as [sx|e]; [|discriminate]. apply IHl. exact A1.
+Qed.
+
+(* ---------- frame: apply_action rewrites the first table of a name, the engine every table of that name ---------- *)
+Lemma replace_tb_notin : forall tb' t r,
+  mem_str t (map t_name r) = false -> replace_tb tb' t (catalog_of r) = catalog_of r.
+Proof.
+  intros tb' t r. unfold replace_tb, catalog_of. induction r as [|x r IH]; intro H; [reflexivity|].
+  cbn [map mem_str existsb] in *. unfold mem_str in H. cbn [map existsb] in H.
+  apply Bool.orb_false_iff in H. destruct H as [H1 H2].
+  rewrite tb_name_catalog_of_table. rewrite String.eqb_sym in H1. rewrite H1. f_equal. apply IH. exact H2.
+Qed.
+
+Lemma frame : forall s t f td td',
+  nodup_str (map t_name s) = true ->
+  find_table t s = Some td -> f td = Ok td' -> t_name td' = t_name td ->
+  exists s', update_table t f s = Ok s' /\
+             catalog_of s' = replace_tb (catalog_of_table td') t (catalog_of s).
+Proof.
+  intros s t f td td'. unfold find_table. induction s as [|x r IH]; intros Hnd Hf Hfd Hn; cbn [find] in Hf; [discriminate|].
+  cbn [map nodup_str] in Hnd. apply Bool.andb_true_iff in Hnd. destruct Hnd as [Hx Hr].
+  cbn [update_table].
+  destruct (String.eqb (t_name x) t) eqn:E.
+  - inversion Hf; subst x. rewrite Hfd. eexists. split; [reflexivity|].
+    apply String.eqb_eq in E.
+    cbn [catalog_of map replace_tb]. rewrite tb_name_catalog_of_table. rewrite E, String.eqb_refl. f_equal.
+    symmetry. apply replace_tb_notin. rewrite <- E. apply Bool.negb_true_iff in Hx. exact Hx.
+  - destruct (IH Hr Hf Hfd Hn) as [s' [U C]]. rewrite U. eexists. split; [reflexivity|].
+    cbn [catalog_of map replace_tb]. rewrite tb_name_catalog_of_table, E. f_equal. exact C.
+Qed.
+
+(* ---------- RawSql ---------- *)
+Theorem sim_raw_sql : forall s sql, action_sim s (RawSql sql).
+Proof.
+  intros s sql s' Ha P. cbn in Ha. inversion Ha; subst s'. cbn [gen].
+  destruct (String.eqb sql ""); eexists; split; reflexivity.
+Qed.
+
+(* ---------- ModifyColumn{Type,Nullable,Default,Comment} ---------- *)
+Definition mk_mcol (ks : list table_constraint) (c : column_def) : mcol :=
+  mkMCol (c_name c) (mysql_type_text (c_type c))
+         (negb (c_nullable c) || mem_str (c_name c) (match first_pk ks with Some p => p | None => [] end))%bool
+         (option_map (mysql_default_text (c_type c)) (c_default c))
+         (mem_str (c_name c) (auto_increment_columns ks) && supports_auto_increment (c_type c))%bool.
+
+Lemma catalog_of_table_cols : forall td, tb_cols (catalog_of_table td) = map (mk_mcol (t_constraints td)) (t_columns td).
+Proof. reflexivity. Qed.
+
+Lemma catalog_of_table_same_constraints : forall n d cols cols' ks,
+  catalog_of_table (mkTable n d cols' ks) =
+  mkMTable n (map (mk_mcol ks) cols') (tb_pk (catalog_of_table (mkTable n d cols ks)))
+           (tb_indexes (catalog_of_table (mkTable n d cols ks))) (tb_fks (catalog_of_table (mkTable n d cols ks)))
+           (tb_checks (catalog_of_table (mkTable n d cols ks))).
+Proof. reflexivity. Qed.
+
+Lemma mc_name_mk : forall ks x, mc_name (mk_mcol ks x) = c_name x.
+Proof. reflexivity. Qed.
+
+Lemma map_replace_id : forall (m : mcol) c ks r,
+  mem_str c (map c_name r) = false ->
+  map (fun x => if String.eqb (mc_name x) c then m else x) (map (mk_mcol ks) r) = map (mk_mcol ks) r.
+Proof.
+  intros m c ks r. induction r as [|y r IH]; intro H; [reflexivity|].
+  unfold mem_str in H. cbn [map existsb] in H. apply Bool.orb_false_iff in H. destruct H as [H1 H2].
+  cbn [map]. rewrite mc_name_mk. rewrite String.eqb_sym in H1. rewrite H1. f_equal. apply IH. exact H2.
+Qed.
+
+Lemma cols_update : forall c g ks (m : mcol) cols col cols',
+  nodup_str (map c_name cols) = true ->
+  find (fun x => String.eqb (c_name x) c) cols = Some col ->
+  update_first_col c g cols = Some cols' ->
+  mk_mcol ks (g col) = m ->
+  map (mk_mcol ks) cols' = map (fun x => if String.eqb (mc_name x) c then m else x) (map (mk_mcol ks) cols).
+Proof.
+  intros c g ks m cols. induction cols as [|x r IH]; intros col cols' Hnd Hf Hu Hm; cbn [find update_first_col] in *; [discriminate|].
+  cbn [map nodup_str] in Hnd. apply Bool.andb_true_iff in Hnd. destruct Hnd as [Hx Hr].
+  destruct (String.eqb (c_name x) c) eqn:E.
+  - inversion Hf; subst x. inversion Hu; subst cols'. cbn [map]. rewrite mc_name_mk, E.
+    rewrite Hm. f_equal. symmetry. apply map_replace_id.
+    apply String.eqb_eq in E. rewrite <- E. apply Bool.negb_true_iff in Hx. exact Hx.
+  - destruct (update_first_col c g r) as [r'|] eqn:U; [|discriminate]. cbn [option_map] in Hu. inversion Hu; subst cols'.
+    cbn [map]. rewrite mc_name_mk, E. f_equal. eapply IH; eauto.
+Qed.
+
+Lemma has_mcol_catalog : forall c td, has_mcol c (catalog_of_table td) = has_column c td.
+Proof.
+  intros c td. unfold has_mcol, has_column. rewrite catalog_of_table_cols.
+  induction (t_columns td) as [|x r IH]; [reflexivity|]. cbn [map existsb]. cbn [mk_mcol mc_name]. rewrite IH. reflexivity.
+Qed.
+
+Lemma find_column_has : forall c td col, find_column c td = Some col -> has_column c td = true.
+Proof.
+  unfold find_column, has_column. intros c td col H. apply existsb_exists. exists col.
+  apply find_some in H. exact H.
+Qed.
+
+Lemma find_table_in : forall t s td, find_table t s = Some td -> In td s /\ t_name td = t.
+Proof.
+  unfold find_table. intros t s td H. apply find_some in H. destruct H as [H1 H2]. split; [exact H1|].
+  apply String.eqb_eq. exact H2.
+Qed.
+
+Definition is_update_on (t c : string) (x : stmt) : bool :=
+  match x with
+  | SUpdate t' c' _ w =>
+      (String.eqb t' t && String.eqb c' c
+       && match w with None => true | Some (WIsNull y) | Some (WEq y _) => String.eqb y c end)%bool
+  | _ => false
+  end.
+
+Lemma run_updates : forall t c cat tb pre,
+  find_tb t cat = Some tb -> has_mcol c tb = true ->
+  forallb (is_update_on t c) pre = true -> run cat pre = RunOk cat.
+Proof.
+  intros t c cat tb pre Ft Hc. unfold run. generalize 0%nat. induction pre as [|x r IH]; intros i H; [reflexivity|].
+  cbn [forallb] in H. apply Bool.andb_true_iff in H. destruct H as [Hx Hr].
+  destruct x; cbn [is_update_on] in Hx; try discriminate.
+  apply Bool.andb_true_iff in Hx. destruct Hx as [Hx Hw]. apply Bool.andb_true_iff in Hx. destruct Hx as [Ht Hcol].
+  apply String.eqb_eq in Ht. apply String.eqb_eq in Hcol. subst t0 col.
+  cbn [run_from exec]. unfold with_tb. rewrite Ft.
+  assert (A : all_cols_exist (c :: match w with Some (WIsNull x) | Some (WEq x _) => [x] | None => [] end) tb = true).
+  { unfold all_cols_exist. destruct w as [[y|y v]|]; cbn [forallb]; try (apply String.eqb_eq in Hw; subst y); rewrite Hc; reflexivity. }
+  rewrite A. apply IH. exact Hr.
+Qed.
+
+Lemma fill_with_updates_on : forall t c fw, forallb (is_update_on t c) (fill_with_updates t c fw) = true.
+Proof.
+  intros t c fw. unfold fill_with_updates. destruct fw as [l|]; [|reflexivity].
+  induction l as [|x r IH]; [reflexivity|]. cbn [map forallb is_update_on]. rewrite !String.eqb_refl. cbn [andb]. exact IH.
+Qed.
+
+Lemma modify_pre_updates : forall s P a t c col,
+  modify_target a = Some (t, c) -> lookup_column s t c = Some col ->
+  forall pre d, gen s P a = Ok (pre ++ [SModifyColumn t d]) -> forallb (is_update_on t c) pre = true.
+Proof.
+  intros s P a t c col Ht Hl pre d G.
+  destruct (lookup_found s t c col Hl) as [td [Ft Fc]].
+  destruct a as [tb cols ks|tb|tb cl fw|tb f2 t2|tb cn|tb cn ty fw|tb cn nl fw|tb cn nd|tb cn nc|tb k|tb k|f2 t2|sql];
+    cbn [modify_target] in Ht; try discriminate; inversion Ht; subst tb cn; clear Ht; cbn [gen] in G.
+  - (* type *) unfold gen_modify_type in G. inversion G as [G']. apply app_inj_tail in G'. destruct G' as [G' _]. subst pre.
+    apply fill_with_updates_on.
+  - (* nullable *) unfold gen_modify_nullable, with_column in G. rewrite Ft, Fc in G. inversion G as [G'].
+    apply app_inj_tail in G'. destruct G' as [G' _]. subst pre.
+    destruct nl; [reflexivity|]. destruct (normalize_fill_with fw); [|reflexivity].
+    cbn [forallb is_update_on]. rewrite !String.eqb_refl. reflexivity.
+  - unfold gen_modify_default, with_column in G. rewrite Ft, Fc in G. inversion G as [G'].
+    change [SModifyColumn t (sea_coldef (set_default (option_map default_of_string nd) col))]
+      with ([] ++ [SModifyColumn t (sea_coldef (set_default (option_map default_of_string nd) col))]) in G'.
+    apply app_inj_tail in G'. destruct G' as [G' _]. subst pre. reflexivity.
+  - unfold gen_modify_comment, with_column in G. rewrite Ft, Fc in G. inversion G as [G'].
+    change [SModifyColumn t (with_comment nc (sea_coldef (set_comment nc col)))]
+      with ([] ++ [SModifyColumn t (with_comment nc (sea_coldef (set_comment nc col)))]) in G'.
+    apply app_inj_tail in G'. destruct G' as [G' _]. subst pre. reflexivity.
+Qed.
+
+Theorem sim_modify_column : forall s a, modify_sim_hyp s a = true -> action_sim s a.
+Proof.
+  intros s a H s' Ha P. unfold modify_sim_hyp in H.
+  destruct (modify_target a) as [[t c]|] eqn:Ht; [|discriminate].
+  destruct (lookup_column s t c) as [col|] eqn:Hl; [|discriminate].
+  rewrite Ha in H.
+  apply Bool.andb_true_iff in H; destruct H as [H Hwfa].
+  apply Bool.andb_true_iff in H; destruct H as [H Hpknn].
+  apply Bool.andb_true_iff in H; destruct H as [H Hdef].
+  apply Bool.andb_true_iff in H; destruct H as [H Hauto].
+  unfold wf_names in H. apply Bool.andb_true_iff in H. destruct H as [Hndt Hndc].
+  destruct (modify_preserves s P a t c col s' Ht Hl Ha Hdef) as [pre [d [col' [G [_ [Hl' [Hname [Hrest [Hda [_ _]]]]]]]]]].
+  pose proof (apply_modify_lookup s a t c col s' Ht Hl Ha) as Hl2. rewrite Hl' in Hl2. inversion Hl2; subst col'. clear Hl2.
+  pose proof (modify_pre_updates s P a t c col Ht Hl pre d G) as Hpre.
+  destruct (lookup_found s t c col Hl) as [td [Ft Fc]].
+  destruct (find_table_in t s td Ft) as [Hin Htn].
+  assert (Hcols : nodup_str (map c_name (t_columns td)) = true).
+  { rewrite forallb_forall in Hndc. apply Hndc. exact Hin. }
+  (* the table after the action *)
+  assert (Hup : exists g, (forall x, c_name (g x) = c_name x) /\ g col = after_col a col /\
+                          apply_action s a = update_table t (update_column t c g) s).
+  { destruct a as [tb cols ks|tb|tb cl fw|tb f2 t2|tb cn|tb cn ty fw|tb cn nl fw|tb cn nd|tb cn nc|tb k|tb k|f2 t2|sql];
+      cbn [modify_target] in Ht; try discriminate; inversion Ht; subst tb cn.
+    - exists (set_type ty). split; [intro; reflexivity|split; reflexivity].
+    - exists (set_nullable nl). split; [intro; reflexivity|split; reflexivity].
+    - exists (set_default (option_map default_of_string nd)). split; [intro; reflexivity|split; reflexivity].
+    - exists (set_comment nc). split; [intro; reflexivity|split; reflexivity]. }
+  destruct Hup as [g [Hg [Hgc Hap]]].
+  unfold find_column in Fc.
+  destruct (update_first_col_find c g (t_columns td) col Hg Fc) as [cols' [U Fc']].
+  set (td' := mkTable (t_name td) (t_description td) cols' (t_constraints td)).
+  destruct (frame s t (update_column t c g) td td' Hndt Ft) as [s2 [Us Cs]].
+  { unfold update_column. rewrite U. reflexivity. }
+  { reflexivity. }
+  rewrite Hap in Ha. rewrite Us in Ha. inversion Ha; subst s2. clear Ha.
+  (* the statements *)
+  exists (pre ++ [SModifyColumn t d]). split; [exact G|].
+  assert (Ftb : find_tb t (catalog_of s) = Some (catalog_of_table td)).
+  { rewrite find_tb_catalog_of, Ft. reflexivity. }
+  assert (Hhas : has_mcol c (catalog_of_table td) = true).
+  { rewrite has_mcol_catalog. eapply find_column_has. exact Fc. }
+  eapply run_app_ok; [eapply run_updates; eassumption|].
+  unfold run. cbn [run_from exec]. unfold with_tb. rewrite Ftb. rewrite Hname, Hhas. cbn [negb].
+  (* the restated attributes *)
+  unfold restated, declared in Hrest. inversion Hrest as [[Hty Hnn Hdf]].
+  assert (Hpk : tb_pk (catalog_of_table td) = first_pk (t_constraints td)) by reflexivity.
+  assert (Hpkc : pk_cols_of_table s t = match first_pk (t_constraints td) with Some p => p | None => [] end).
+  { unfold pk_cols_of_table, constraints_of. rewrite Ft. reflexivity. }
+  assert (M9 : (negb (cd_notnull d) && match tb_pk (catalog_of_table td) with Some p => mem_str c p | None => false end)%bool = false).
+  { rewrite Hnn, Hpk. rewrite Hpkc in Hpknn. rewrite Bool.negb_involutive.
+    destruct (first_pk (t_constraints td)) as [p|]; [|apply Bool.andb_false_r].
+    destruct (mem_str c p); cbn [negb orb] in Hpknn; [|apply Bool.andb_false_r].
+    apply Bool.negb_true_iff in Hpknn. rewrite Hpknn. reflexivity. }
+  rewrite M9.
+  (* the engine's table is the believed table of the new schema *)
+  assert (Hm : mk_mcol (t_constraints td) (g col) = mcol_of_def d).
+  { rewrite Hgc. unfold mk_mcol, mcol_of_def. rewrite Hname, Hty, Hnn, Hdf, Hda.
+    assert (Hn2 : c_name (after_col a col) = c).
+    { rewrite <- Hgc, Hg. eapply find_column_name. unfold find_column. exact Fc. }
+    rewrite Hn2. f_equal.
+    - rewrite Hpkc in Hpknn. destruct (mem_str c _); cbn [negb orb] in Hpknn.
+      + apply Bool.negb_true_iff in Hpknn. rewrite Hpknn. reflexivity.
+      + apply Bool.orb_false_r.
+    - unfold is_auto_col, constraints_of in Hauto. rewrite Ft in Hauto. apply Bool.negb_true_iff in Hauto.
+      rewrite Hauto. reflexivity. }
+  assert (Htb : mkMTable (tb_name (catalog_of_table td))
+                  (map (fun x => if String.eqb (mc_name x) c then mcol_of_def d else x) (tb_cols (catalog_of_table td)))
+                  (tb_pk (catalog_of_table td)) (tb_indexes (catalog_of_table td)) (tb_fks (catalog_of_table td))
+                  (tb_checks (catalog_of_table td)) = catalog_of_table td').
+  { unfold td'. destruct td as [n ds cols ks]. cbn [t_name t_description t_columns t_constraints] in *.
+    rewrite (catalog_of_table_same_constraints n ds cols cols' ks). rewrite catalog_of_table_cols. cbn [t_constraints t_columns].
+    f_equal. symmetry. eapply cols_update; eauto. }
+  rewrite Htb.
+  assert (Hao : auto_ok (catalog_of_table td') = true).
+  { unfold wf_auto in Hwfa. rewrite forallb_forall in Hwfa. apply Hwfa.
+    assert (F2 : find_table t s' = Some td').
+    { destruct (update_table_find t (update_column t c g) s td td' Ft) as [s3 [U3 F3]].
+      - unfold update_column. rewrite U. reflexivity.
+      - reflexivity.
+      - rewrite Us in U3. inversion U3; subst s3. exact F3. }
+    apply (find_table_in t s' td' F2). }
+  rewrite Hao. rewrite Cs. reflexivity.
 Qed.
